@@ -363,6 +363,10 @@ class C11:
         if name in FIXED_LENGTH and kind not in ("mdam",) and rc.random() < 0.35:
             T = width - FIXED_LENGTH[name]
             step_mask = [[rc.random() < 0.6 for _ in range(T)] for _ in range(B)]
+        # knobs configured ON the policy object (constructor arguments of ConstructivePolicy) instead of per call,
+        # with another call under other call-time knobs interleaved between record and replay (as SamplingEval
+        # does between training steps): nothing a call passes may stick to the policy
+        plan["knobs_on_policy"] = bool(kind in ("am", "scripted", "ham", "symnco", "polynet") and rc.random() < 0.4)
         plan.update({"mode": mode, "k": k, "select_best": select_best, "knobs": knobs,
                      "ret_sum": rc.random() < 0.4, "ret_entropy": rc.random() < 0.6,
                      "ret_entropy2": rc.random() < 0.5, "step_mask": step_mask})
@@ -620,6 +624,11 @@ def _execute_roundtrip(run):
     if plan["step_mask"] is not None:
         td["mask"] = torch.tensor(plan["step_mask"], dtype=torch.bool)
     dk = _decode_kwargs(plan)
+    on_policy = bool(plan.get("knobs_on_policy")) and hasattr(pol, "temperature") and hasattr(pol, "tanh_clipping")
+    if on_policy:
+        pol.temperature = dk.pop("temperature")
+        if "tanh_clipping" in dk:
+            pol.tanh_clipping = dk.pop("tanh_clipping")
     kw1 = dict(dk)
     if mode == "multisample":
         kw1.update(decode_type="sampling", num_samples=k)
@@ -669,6 +678,16 @@ def _execute_roundtrip(run):
                         "log-likelihood", constraint="forced_step_nonzero", mode=mode, k=k)
             raise StopRun()
         run.probe("forced_step_zero")
+
+    if on_policy:
+        # interleaved call on the same policy object with other call-time knobs (its output is discarded)
+        torch.manual_seed(plan["sample_seed"] + 5)
+        with torch.no_grad():
+            with run.guard(scope, "interleaved policy call with call-time temperature / tanh_clipping", promise=False):
+                pol(td.clone().flip(0) if hasattr(td, "flip") else td.clone(), env, phase="test", decode_type="sampling",
+                    temperature=float(pol.temperature) * 2.0 + 0.25, tanh_clipping=5.0, max_steps=_max_steps(td))
+        run.fault("interleaved_call")
+        run.nontrivial = True
 
     # ---- run 2: replay in evaluate mode -------------------------------------------------------
     variants = []
